@@ -421,6 +421,9 @@ def check_C10(ctx):
     snap_trace(ctx, "claims", "claims", 2, 2, 5, 30000 if q else 400000, ["P_C10"], 17)     # claim templates with labels of their own
     snap_trace(ctx, "faults-claims", "faults-claims", 2, 2, 5, 20000 if q else 300000, ["P_C10"], 15)
     snap_trace(ctx, "evict-claims", "evict-claims", 2, 2, 5, 10000 if q else 200000, ["P_C10"], 16)
+    # an adoption patch that is refused (every error kind, Invalid among them) confers nothing
+    snap_trace(ctx, "faults-own-pods", "faults-own-pods", 2, 2, 5, 8000 if q else 200000, ["P_C10"], 18)
+    snap_trace(ctx, "faults-adopt", "faults-adopt", 2, 2, 5, 20000 if q else 0, ["P_C10"], 19)   # several orphans, one call refused
     if not q:
         snap_trace(ctx, "own-pods3", "own-pods3", 2, 2, 5, 300000, ["P_C10"], 13)
         ctx.exhaustive = True
@@ -454,8 +457,10 @@ def check_C13(ctx):
     q = ctx.quick
     ctx.design("MCHistory", hist_cfg(3, ["asc"] if q else ["asc", "desc", "ties"], [0, 3, 5], [0], ["I_C13"]), "history-3revs")
     ctx.design("MCOwnership", own_cfg("revs", 2, ["I_C13"]), "own-revs")
-    sh1, _ = snap_trace(ctx, "history", "history", 2, 2, 5, 60000 if q else 1200000, ["P_C13"], 30)
+    sh1, _ = snap_trace(ctx, "history", "history", 2, 2, 5, 40000 if q else 1200000, ["P_C13"], 30)
     sh2, _ = snap_trace(ctx, "own-revs", "own-revs", 2, 2, 5, 20000 if q else 0, ["P_C13"], 31)
+    # with a delete slot a desired pod sits at an ordinal >= spec.replicas: its revision is as live as any other
+    snap_trace(ctx, "history-slots", "history-slots", 2, 2, 5, 30000 if q else 600000, ["P_C13"], 32)
     ctx.add_samples(sh1, 2, has_call("delete", "controllerrevisions"))
     ctx.add_samples(sh2, 1, has_call("delete", "controllerrevisions"))
 
@@ -694,6 +699,8 @@ def check_C06(ctx):
     # the label of the revision a pod is built from, with several revisions in flight (current != update, partitions)
     shp, _ = snap_trace(ctx, "pods-3ord", "pods", 2, 3, 5, 30000 if q else 500000, ["P_C06"], 51)
     ctx.design("MCSnapshot", mc_snapshot_cfg(1, 2, 5, False, ["I_C06"]), "pods-1ord")
+    # a set name with dots and digits ("db.v1.2"): identity is "<set>-<ordinal>" for every admitted name
+    snap_trace(ctx, "pods-dotted", "pods-dotted", 2, 3, 5, 15000 if q else 300000, ["P_C06"], 52)
     # (147 M points since the claim cache may lag: sampled in both tiers)
     sh1, _ = snap_trace(ctx, "claims", "claims", 2, 2, 5, 80000 if q else 1500000, ["P_C06"], 50)
     ctx.add_samples(sh1, 2, has_call("create", "persistentvolumeclaims"))
